@@ -90,6 +90,18 @@ Theorem handed_prefix :
 Proof. exact handed_prefix_lemma. Qed.
 Print Assumptions handed_prefix.
 
+(* A successful inner step's element is always returned and buffered -- also when the caller's
+   context was cancelled or expired while the step was in progress (script event SFx): the code
+   checks the inner error, not ctx.Err(), after a successful step.  flush_complete rests on this;
+   a Next that re-checked the context and dropped the element would cache a result with a hole. *)
+Theorem next_success_is_buffered :
+  forall m c inn t, mi_closing m = false -> inner_call true c (mi_inner m) = (inn, RItem t) ->
+  snd (miss_next m c) = RItem t /\
+  mi_buf (fst (miss_next m c)) = buf_push (mi_var m) (mi_max m) (mi_buf m) t /\
+  mi_out (fst (miss_next m c)) = mi_out m ++ [t].
+Proof. exact next_success_is_buffered_lemma. Qed.
+Print Assumptions next_success_is_buffered.
+
 (* The hypothesis q_lossy = false cannot be dropped: over an inner iterator that loses the element
    it was about to return when it reports a cancellation, the buffer kept "on done-or-cancelled" is
    later flushed with a hole.  (No iterator below the cache in /repo behaves like that; this is the
@@ -143,6 +155,16 @@ Example ex_second_read_is_a_hit_and_complete :
   [OOpened true false; ORes (RItem ex_ta); ORes (RItem ex_tb); ORes (RItem ex_tc);
    ORes (RItem ex_tc); ORes RDone].
 Proof. vm_compute. reflexivity. Qed.
+
+Example ex_cancelled_during_a_successful_next :
+  (* second Next returns its tuple although the context died meanwhile; the drained entry is whole;
+     the second read is a hit with all three tuples *)
+  firstn 4 (snd (run init_state (ex_fx_history V1))) =
+    [OOpened false false; ORes (RItem ex_ta); ORes (RItem ex_tb); ORes (RErr ECancel)] /\
+  map (fun w => entry_len (snd (fst w))) (st_writes (fst (run init_state (ex_fx_history V1)))) = [3%nat] /\
+  skipn 10 (snd (run init_state (ex_fx_history V1))) =
+    [OOpened true false; ORes (RItem ex_ta); ORes (RItem ex_tb); ORes (RItem ex_tc); ORes RDone].
+Proof. vm_compute. repeat split; reflexivity. Qed.
 
 Example ex_consistent : forallb (consistent (kf_of (ex_q V1 [] false))) ex_full = true /\
                         forallb (consistent2 (kf_of (ex_q V2 [] false))) ex_full = true.
